@@ -1463,7 +1463,19 @@ impl<'a> Exec<'a> {
                 };
                 let e_w: u64 = removed_other.iter().map(|k| wt(*k)).sum();
                 let wmax: u64 = removed_other.iter().map(|k| wt(*k)).max().unwrap_or(0);
-                let mut x: u64 = self.q_prev.entries.iter().filter(|e| !post.has(e.k) && !removed_other.contains(&e.k)).map(|e| wt(e.k)).sum();
+                // (entries that left because they had expired: the purge precedes the eviction in
+                // every operation, so their weight does not count as having left afterwards -
+                // unless more entries than one purge batch may be expired, in which case an
+                // expired leftover can itself be among the victims)
+                let purge_complete = self.burst_total == 0;
+                let mut x: u64 = self
+                    .q_prev
+                    .entries
+                    .iter()
+                    .filter(|e| !post.has(e.k) && !removed_other.contains(&e.k))
+                    .filter(|e| !purge_complete || self.cur(e.k).is_none() || self.dead_by_inval(e.k))
+                    .map(|e| wt(e.k))
+                    .sum();
                 let prev_w: u64 = self.q_prev.entries.iter().map(|e| wt(e.k)).sum();
                 let mut fresh: Option<u64> = None;
                 if let Some(Prim::Insert { k, w }) = window.first().map(|w| w.prim.clone()) {
